@@ -786,8 +786,39 @@ impl NodeId {
         }
         Ok(())
     }
-    #[verifier::external_body]
-    pub fn remove<T>(self, arena: &mut Arena<T>) {
+    pub fn remove<T>(self, arena: &mut Arena<T>)
+        // @props C01 C02 C04 C06 C07 C08 C12
+        requires
+            old(arena).wf(),
+            old(arena).live(self),
+        ensures
+            // @ob C01.wf@remove C01 C02 C12
+            final(arena).wf(),
+            // @ob C04.remove_splices_children_into_place C04
+            remove_post(old(arena).nodes@, final(arena).nodes@, self.idx()),
+            // @ob C06.remove_marks_the_id_removed C06 C12
+            final(arena).at(self).stamp.0 == -old(arena).at(self).stamp.0 - 1,
+            // @ob C08.remove_keeps_every_other_payload C08 C04
+            forall|i: int|
+                0 <= i < old(arena).nodes@.len() && i != self.idx() ==> (#[trigger] final(arena).nodes@[i]).stamp == old(
+                    arena,
+                ).nodes@[i].stamp && (!old(arena).nodes@[i].stamp.removed() ==> final(arena).nodes@[i].data == old(arena).nodes@[i].data),
+            // @ob C07.remove_makes_the_slot_available_exactly_once C07
+            forall|fl: Seq<int>| #[trigger]
+                free_list(old(arena).nodes@, old(arena).first_free_slot, old(arena).last_free_slot, fl) ==> free_list(
+                    final(arena).nodes@,
+                    final(arena).first_free_slot,
+                    final(arena).last_free_slot,
+                    if final(arena).at(self).stamp.can_reuse() {
+                        fl.push(self.idx())
+                    } else {
+                        fl
+                    },
+                ),
+    {
+        proof {
+            lemma_remove_entry(arena.nodes@, self);
+        }
         debug_assert_triangle_nodes!(
             arena,
             arena[self].parent,
@@ -813,14 +844,44 @@ impl NodeId {
             )
         };
         assert_eq!(first_child.is_some(), last_child.is_some());
+        let ghost w = choose|w: Ranks| ranked(arena.nodes@, w);
         self.detach(arena);
+        let ghost a1 = *arena;
+        let ghost s1 = arena.nodes@;
+        proof {
+            lemma_gap_after_detach(old(arena).nodes@, s1, w, self.idx());
+        }
         if let (Some(first_child), Some(last_child)) = (first_child, last_child) {
+            proof {
+                assert(splice_ctx(s1, w, self.idx(), first_child, last_child, parent, previous_sibling, next_sibling));
+                lemma_splice_pre_s(s1, w, self.idx(), first_child, last_child, parent, previous_sibling, next_sibling);
+                lemma_links_live(s1, self.idx());
+            }
             let range = SiblingsRange::new(first_child, last_child).detach_from_siblings(arena);
+            let ghost s2 = arena.nodes@;
+            proof {
+                lemma_splice_pre(s1, s2, w, self.idx(), first_child, last_child, parent, previous_sibling, next_sibling);
+            }
             range
                 .transplant(arena, parent, previous_sibling, next_sibling)
                 .expect("Should never fail: neighbors and children must be consistent");
+            proof {
+                let c = chain_from(s1, w, first_child.idx());
+                assert(is_chain(s2, first_child.idx(), c));
+                lemma_compose_splice(s1, s2, arena.nodes@, w, self.idx(), first_child, last_child, parent, previous_sibling, next_sibling);
+                lemma_splice_links(s1, arena.nodes@, w, self.idx(), first_child, last_child, parent, previous_sibling, next_sibling);
+                lemma_splice_ranks(s1, arena.nodes@, w, self.idx(), first_child, last_child, parent, previous_sibling, next_sibling);
+                lemma_relink_wf(a1, *arena);
+            }
+        }
+        let ghost a3 = *arena;
+        proof {
+            lemma_payload_frame_wf(old(arena).nodes@, a3.nodes@, old(arena).first_free_slot, old(arena).last_free_slot);
         }
         arena.free_node(self);
+        proof {
+            lemma_remove_compose(old(arena).nodes@, s1, a3.nodes@, arena.nodes@, w, self);
+        }
         debug_assert!(arena[self].is_detached());
     }
     #[verifier::external_body]
